@@ -65,7 +65,7 @@ def run_variant(patch, props, keep=False):
         try:
             facts = extract.extract_scratch(scratch)
         except extract.ExtractError as e:
-            return {"_error": str(e)[-1500:]}
+            return {"_error": str(e)[-400:]}
         return run_props(facts, props)
     finally:
         if not keep:
